@@ -483,13 +483,20 @@ Proof.
 Qed.
 
 (* build_log_call keeps the expression arguments *)
+Lemma split_string_S : forall fuel c str',
+  split_string (S fuel) (String c str') =
+  let cur := String c str' in
+  let k := back_off cur (Nat.min sub_len (String.length cur)) in
+  dbind (split_string fuel (drop_bytes k cur)) (fun v => DOk (LogStr (take_bytes k cur) :: v)).
+Proof. reflexivity. Qed.
+
 Lemma split_string_strs : forall (P : expression -> Prop) fuel s v,
   split_string fuel s = DOk v -> Forall (log_all P) v.
 Proof.
-  intros P. induction fuel as [|fuel IHf]; intros s v H; simpl in H.
-  - destruct s; inv_ok. apply Forall_nil.
-  - destruct s as [|c s']; [inv_ok; apply Forall_nil|].
-    match type of H with (if ?c then _ else _) = _ => destruct c end; inv_ok.
+  intros P. induction fuel as [|fuel IHf]; intros s v H.
+  - destruct s; simpl in H; inv_ok. apply Forall_nil.
+  - destruct s as [|c s']; [simpl in H; inv_ok; apply Forall_nil|].
+    rewrite split_string_S in H. cbv zeta in H. inv_ok.
     apply Forall_cons; [exact I|]. eapply IHf; eauto.
 Qed.
 
@@ -1120,28 +1127,17 @@ Proof.
   destruct rs as [|r rs]; [discriminate Hlen|]. eapply IH; [|exact H]. simpl in Hlen. lia.
 Qed.
 
-Definition pass2_site (s : Z) : Prop := s = site_report_file_id \/ s = site_split_at.
+Definition pass2_site (s : Z) : Prop := s = site_report_file_id.
 
-Lemma split_string_S : forall fuel c str',
-  split_string (S fuel) (String c str') =
-  let cur := String c str' in
-  let k := Nat.min sub_len (String.length cur) in
-  if starts_char (drop_bytes k cur)
-  then dbind (split_string fuel (drop_bytes k cur)) (fun v => DOk (LogStr (take_bytes k cur) :: v))
-  else DPanic site_split_at.
-Proof. reflexivity. Qed.
-
-Lemma split_string_panic : forall fuel str s, split_string fuel str = DPanic s -> s = site_split_at.
+Lemma split_string_panic : forall fuel str s, split_string fuel str = DPanic s -> False.
 Proof.
   induction fuel as [|fuel IH]; intros str s H.
   - destruct str; discriminate.
   - destruct str as [|c str']; [discriminate|]. rewrite split_string_S in H. cbv zeta in H.
-    match type of H with (if ?c then _ else _) = _ => destruct c end; [|congruence].
     apply dbind_panic in H. destruct H as [H|(a & _ & H)]; [eauto | discriminate].
 Qed.
-Arguments split_string : simpl never.
 
-Lemma build_log_args_panic : forall args s, build_log_args args = DPanic s -> s = site_split_at.
+Lemma build_log_args_panic : forall args s, build_log_args args = DPanic s -> False.
 Proof.
   induction args as [|a rest IH]; intros s H; simpl in H; [discriminate|].
   destruct a as [str|e].
@@ -1179,33 +1175,32 @@ Proof.
 Qed.
 
 (* on the output of pass 1, pass 2 panics at most in into_report (a meta without
-   file id) or in split_string: never in `unreachable!()` and never in
+   file id): never in `unreachable!()` and never in
    `rhe_values.remove(0)` *)
 Lemma rts_panic_sites : forall st s, NAs st ->
   remove_tuples_from_statement st = DPanic s -> pass2_site s.
 Proof.
   induction st using statement_ind'; intros s Hna Hp; cbn [remove_tuples_from_statement] in Hp.
   - apply CLs_if in Hna. destruct Hna as (Hc & Hi & He).
-    destruct (contains_tuple c); [left; eapply fail_panic; eauto|].
+    destruct (contains_tuple c); [eapply fail_panic; eauto|].
     apply dbind_panic in Hp. destruct Hp as [Hp|(a & _ & Hp)]; [eauto|].
     destruct e as [e'|]; [|discriminate].
     apply dbind_panic in Hp. destruct Hp as [Hp|(b & _ & Hp)]; [|discriminate]. eapply H; eauto.
   - apply CLs_while in Hna. destruct Hna as (Hc & Hb).
-    destruct (contains_tuple c); [left; eapply fail_panic; eauto|].
+    destruct (contains_tuple c); [eapply fail_panic; eauto|].
     apply dbind_panic in Hp. destruct Hp as [Hp|(a & _ & Hp)]; [eauto|discriminate].
-  - destruct (contains_tuple v); [left; eapply fail_panic; eauto|discriminate].
+  - destruct (contains_tuple v); [eapply fail_panic; eauto|discriminate].
   - apply dbind_panic in Hp. destruct Hp as [Hp|(a & _ & Hp)]; [|discriminate].
     eapply rts_list_panic; [|exact Hp]. apply CLs_init in Hna. rewrite Forall_forall in *. intros x Hx s0 Hs0. eapply H; eauto.
-  - destruct (existsb contains_tuple d); [left; eapply fail_panic; eauto|discriminate].
+  - destruct (existsb contains_tuple d); [eapply fail_panic; eauto|discriminate].
   - apply CLs_sub in Hna. destruct Hna as [Hacc Hr].
-    apply dbind_panic in Hp. destruct Hp as [Hp|(e' & _ & Hp)]; [left; exact (rte_no_unreachable _ _ Hr Hp)|].
-    destruct (is_tuple e'); [left; eapply fail_panic; eauto|].
-    destruct (access_first_such contains_tuple a); [left; eapply fail_panic; eauto|].
+    apply dbind_panic in Hp. destruct Hp as [Hp|(e' & _ & Hp)]; [exact (rte_no_unreachable _ _ Hr Hp)|].
+    destruct (is_tuple e'); [eapply fail_panic; eauto|].
+    destruct (access_first_such contains_tuple a); [eapply fail_panic; eauto|].
     destruct (negb (String.eqb v "_")); discriminate.
   - apply CLs_msub in Hna. destruct Hna as [Hl Hr].
-    apply dbind_panic in Hp. destruct Hp as [Hp|(l' & _ & Hp)]; [left; exact (rte_no_unreachable _ _ Hl Hp)|].
-    apply dbind_panic in Hp. destruct Hp as [Hp|(r' & _ & Hp)]; [left; exact (rte_no_unreachable _ _ Hr Hp)|].
-    left.
+    apply dbind_panic in Hp. destruct Hp as [Hp|(l' & _ & Hp)]; [exact (rte_no_unreachable _ _ Hl Hp)|].
+    apply dbind_panic in Hp. destruct Hp as [Hp|(r' & _ & Hp)]; [exact (rte_no_unreachable _ _ Hr Hp)|].
     destruct l' as [| | | | | | | | |ml lvals];
       try solve [match type of Hp with (if ?c then _ else _) = _ => destruct c end; eapply fail_panic; eauto].
     destruct r' as [| | | | | | | | |mr rvals];
@@ -1214,14 +1209,14 @@ Proof.
     + apply dbind_panic in Hp. destruct Hp as [Hp|(b & _ & Hp)]; [|discriminate].
       eapply tuple_substs_panic; [|exact Hp]. apply Nat.eqb_eq; auto.
     + destruct (negb (is_nil lvals)); eapply fail_panic; eauto.
-  - destruct (contains_tuple l || contains_tuple r); [left; eapply fail_panic; eauto|discriminate].
+  - destruct (contains_tuple l || contains_tuple r); [eapply fail_panic; eauto|discriminate].
   - apply CLs_log in Hna.
-    apply dbind_panic in Hp. destruct Hp as [Hp|(na & _ & Hp)]; [left; eapply log_new_args_panic; eauto|].
+    apply dbind_panic in Hp. destruct Hp as [Hp|(na & _ & Hp)]; [eapply log_new_args_panic; eauto|].
     unfold build_log_call in Hp. apply dbind_panic in Hp. destruct Hp as [Hp|(b & _ & Hp)]; [|discriminate].
-    right. eapply build_log_args_panic; eauto.
+    exfalso. eapply build_log_args_panic; eauto.
   - apply dbind_panic in Hp. destruct Hp as [Hp|(a & _ & Hp)]; [|discriminate].
     eapply rts_list_panic; [|exact Hp]. apply CLs_block in Hna. rewrite Forall_forall in *. intros x Hx s0 Hs0. eapply H; eauto.
-  - destruct (contains_tuple a); [left; eapply fail_panic; eauto|discriminate].
+  - destruct (contains_tuple a); [eapply fail_panic; eauto|discriminate].
 Qed.
 
 Theorem pass2_unreachable_never_fires : forall env lib body m stmts decls c v su s,
@@ -1229,7 +1224,7 @@ Theorem pass2_unreachable_never_fires : forall env lib body m stmts decls c v su
   separate_declarations decls [] [] [] = DOk (c, v, su) ->
   remove_tuples_from_statement
     (Block m ([InitializationBlock m VVar v] ++ su ++ [InitializationBlock m VComponent c] ++ stmts)) = DPanic s ->
-  s = site_report_file_id \/ s = site_split_at.
+  s = site_report_file_id.
 Proof.
   intros env lib body m stmts decls c v su s H1 H2 H3.
   destruct (ras_na env lib body None I _ _ H1) as [Hs Hd].
